@@ -691,6 +691,20 @@ def run_config(case):
     return run, viols
 
 
+def only_unrestored_complex(a, b):
+    """True iff b is a with every complex number of non-zero imaginary part
+    replaced by exactly its {"real", "imag"} dictionary (the known finding of
+    Results) and nothing else differs"""
+    if isinstance(a, complex) and a.imag != 0:
+        return isinstance(b, dict) and set(b) == {"real", "imag"} and veq(b["real"], a.real) and veq(b["imag"], a.imag) \
+            and repr(float(b["real"])) == repr(a.real) and repr(float(b["imag"])) == repr(a.imag)
+    if isinstance(a, list) and isinstance(b, list) and len(a) == len(b):
+        return all(only_unrestored_complex(x, y) for x, y in zip(a, b))
+    if isinstance(a, dict) and isinstance(b, dict) and a.keys() == b.keys():
+        return all(only_unrestored_complex(a[k], b[k]) for k in a)
+    return veq(a, b)
+
+
 def has_true_complex(v):
     if isinstance(v, complex):
         return v.imag != 0
@@ -743,7 +757,7 @@ def run_results(case):
         if not veq(a["times"], b["times"]):
             bad("results:times-differ", f"{tag}: {a['times']} -> {b['times']}")
         if not veq(a["values"], b["values"]):
-            cxs = has_true_complex(a["values"])
+            cxs = has_true_complex(a["values"]) and only_unrestored_complex(a["values"], b["values"])
             bad(
                 "results:value-differs" + (":complex-not-restored" if cxs else ""),
                 f"{tag}: {a['values']!r} -> {b['values']!r}"[:400],
